@@ -31,18 +31,21 @@ CONSTANTS Cmds,       \* command shapes explored
 
 AllCmds == {"reg", "reg-old", "reg-left", "reg-s", "reg-sg", "reg-f", "bal", "bal-c", "bal-cl", "bal-s",
             "csv-log", "csv-db", "csv-dbres", "print", "summary",
-            "rep-unres", "rep-qty", "rep-tot", "rep-elem", "stats", "lint", "lint-s"}
+            "rep-unres", "rep-qty", "rep-tot", "rep-elem", "stats", "lint", "lint-s",
+            \* the same walk with an end date that only the FIRST record satisfies: the rest of the log is still
+            \* read (and must still be readable and well formed), it is only filtered out
+            "reg-e", "bal-e", "csv-log-e", "print-e", "rep-qty-e", "rep-tot-e"}
 
-UsesDb(c)  == c \in {"reg", "reg-old", "reg-left", "reg-s", "reg-sg", "reg-f", "bal", "bal-c", "bal-cl", "bal-s",
+UsesDb(c)  == c \in {"reg-e", "bal-e", "rep-tot-e", "reg", "reg-old", "reg-left", "reg-s", "reg-sg", "reg-f", "bal", "bal-c", "bal-cl", "bal-s",
                      "csv-db", "csv-dbres", "summary", "rep-unres", "rep-tot", "rep-elem", "stats"}
 Resolves(c) == UsesDb(c) /\ c \notin {"csv-db", "stats"}
-UsesLog(c) == c \in {"reg", "reg-old", "reg-left", "reg-s", "reg-sg", "reg-f", "bal", "bal-c", "bal-cl", "bal-s",
+UsesLog(c) == c \in {"reg-e", "bal-e", "csv-log-e", "print-e", "rep-qty-e", "rep-tot-e", "reg", "reg-old", "reg-left", "reg-s", "reg-sg", "reg-f", "bal", "bal-c", "bal-cl", "bal-s",
                      "csv-log", "print", "summary", "rep-unres", "rep-qty", "rep-tot", "stats"}
 IsLint(c)  == c \in {"lint", "lint-s"}
 LogFirst(c) == c = "stats"                  \* stats reads the log before the book
 DatesParsed(c) == UsesLog(c) /\ c # "stats" \* stats ignores headings that are no dates
 \* per-day reporters write while walking; period reporters write everything in Flush
-PerDay(c) == c \in {"reg", "reg-old", "reg-left", "reg-s", "reg-f", "csv-log", "print", "summary"}
+PerDay(c) == c \in {"reg-e", "csv-log-e", "print-e", "reg", "reg-old", "reg-left", "reg-s", "reg-f", "csv-log", "print", "summary"}
 
 \* a file: n records; problem p at record position at (1..n+1: before/inside that record; the
 \* records before it are complete)
